@@ -273,7 +273,13 @@ func compileTarget(e b6.Expression, c *compilation) error {
 		var l *lambdaCall
 		l, err = compileLambda(e, c)
 		if err == nil {
-			c.Append(Instruction{Op: OpPushValue, Value: reflect.ValueOf(l), Expression: e})
+			if c.Args == nil {
+				c.Append(Instruction{Op: OpPushValue, Value: reflect.ValueOf(l), Expression: e})
+			} else {
+				// The lambda is nested inside another and may use its
+				// arguments, so the value pushed needs to be a closure.
+				c.Append(Instruction{Op: OpPushValue, Callable: l, Expression: e})
+			}
 		}
 	case b6.AnyLiteral:
 		err = compileLiteral(e, c)
@@ -453,8 +459,15 @@ func (v *VM) execute(context *Context) error {
 		case OpJump:
 			v.PC = int(v.Instructions[v.PC].Args[ArgsJumpDestination]) - 1 // Incremented below
 		case OpPushValue:
+			value := v.Instructions[v.PC].Value
+			if c := v.Instructions[v.PC].Callable; c != nil {
+				// A closure is a partial call that binds no arguments: it
+				// captures the current arguments of the enclosing lambdas,
+				// and reinstates them whenever it's called.
+				value = reflect.ValueOf(&partialCall{c: c, e: v.Instructions[v.PC].Expression, vmArgs: v.Args})
+			}
 			v.Stack = append(v.Stack, StackFrame{
-				Value:      v.Instructions[v.PC].Value,
+				Value:      value,
 				Expression: v.Instructions[v.PC].Expression,
 			})
 		case OpStore:
@@ -733,10 +746,15 @@ func (l *lambdaCall) CallFromStack(context *Context, n int, scratch []reflect.Va
 	argsStart := len(vm.Stack) - n - 1
 	expression := vm.Stack[len(vm.Stack)-1].Expression
 	if n == l.args {
+		// The lambda's arguments are only meaningful while it runs, so
+		// put back whatever was there before when it returns: that might
+		// belong to a call of this same lambda further up the stack.
+		oargs := vm.Args
 		opc := vm.PC
 		vm.PC = l.pc
 		err = vm.execute(context)
 		vm.PC = opc
+		vm.Args = oargs
 	} else if n < l.args {
 		p := &partialCall{c: l, e: expression, vmArgs: vm.Args}
 		p.n = n
